@@ -23,6 +23,7 @@ package main
 import (
 	"fmt"
 	"go/types"
+	"sort"
 	"strings"
 
 	"golang.org/x/tools/go/ssa"
@@ -62,7 +63,44 @@ func (x *Exec) rangeFuncCall(fr *frame, st *State, site ssa.Instruction, yield *
 	clo := yield.Clo
 	c.Assume["iterator driving the range-over-func loop in "+shortName(fr.fn)+" is well behaved (sequential yields, none after a false return or after it returned)"] = true
 	m := x.modOfFn(clo.Fn, map[*ssa.Function]bool{})
+	// loop contract: "rangefunc N" of the enclosing function's contract, N by source order
+	var lc *LoopContract
+	ord := 0
+	if fr.con != nil && fr.depth == 0 {
+		var sites []ssa.Instruction
+		for _, b := range fr.fn.Blocks {
+			for _, ins := range b.Instrs {
+				if ci, ok := ins.(ssa.CallInstruction); ok {
+					for _, a := range ci.Common().Args {
+						if mc, ok := a.(*ssa.MakeClosure); ok {
+							if f, ok := mc.Fn.(*ssa.Function); ok && f.Synthetic == "range-over-func yield" {
+								sites = append(sites, ins)
+							}
+						}
+					}
+				}
+			}
+		}
+		sort.SliceStable(sites, func(i, j int) bool { return sites[i].Pos() < sites[j].Pos() })
+		for i, s := range sites {
+			if s == site {
+				ord = i + 1
+			}
+		}
+		lc = fr.con.Loops[-ord]
+	}
 	pre := st.clone()
+	if lc != nil {
+		env := x.envAt(fr, pre, nil)
+		for _, cl := range lc.Invariants {
+			t, err := env.EvalBool(cl.E)
+			if err != nil {
+				x.stale(fr, cl, err)
+				continue
+			}
+			x.oblige(fr, pre, "inv-entry", fmt.Sprintf("rangefunc%d/inv%d", ord, cl.Ord), site.Pos(), t, "aux", "")
+		}
+	}
 	it := st.clone()
 	x.havocMod(it, m, "range-over-func body of "+shortName(fr.fn)+" calls code without contract")
 	// the loop is ready at each call of yield
@@ -70,6 +108,14 @@ func (x *Exec) rangeFuncCall(fr *frame, st *State, site ssa.Instruction, yield *
 		if strings.HasPrefix(fv.Name(), "jump$") && i < len(clo.Bind) {
 			loc := c.PtrLoc(clo.Bind[i])
 			x.store(fr, it, loc, c.Scalar(fv.Type().Underlying().(*types.Pointer).Elem(), c.IntLit(0)))
+		}
+	}
+	if lc != nil {
+		env := x.envAt(fr, it, nil)
+		for _, cl := range lc.Invariants {
+			if t, err := env.EvalBool(cl.E); err == nil {
+				c.AddFact(it.pc, t, "range-over-func invariant")
+			}
 		}
 	}
 	args := make([]Value, len(clo.Fn.Params))
@@ -81,10 +127,21 @@ func (x *Exec) rangeFuncCall(fr *frame, st *State, site ssa.Instruction, yield *
 			}
 		}
 	}
-	x.inline(fr, it, site, clo.Fn, args, clo.Bind)
+	rv := x.inline(fr, it, site, clo.Fn, args, clo.Bind)
 	if it.pc.S == "false" {
 		*st = *pre
 		return
+	}
+	if lc != nil && len(rv.L) == 1 {
+		// the invariant is re-established whenever the body asks for the next element
+		cont := it.clone()
+		cont.pc = c.Name("pc", and(it.pc, rv.L[0]))
+		env := x.envAt(fr, cont, nil)
+		for _, cl := range lc.Invariants {
+			if t, err := env.EvalBool(cl.E); err == nil {
+				x.oblige(fr, cont, "inv-pres", fmt.Sprintf("rangefunc%d/inv%d", ord, cl.Ord), site.Pos(), t, "aux", "")
+			}
+		}
 	}
 	iter := c.Fresh("iterated", SBool)
 	pre.pc = c.Name("pc", and(pre.pc, not(iter)))
